@@ -12,7 +12,8 @@ namespace App
     it is the admin's SetPower, a RemoveValidator, a CreateValidator, a RemovePending or an UpdateStakingParams under the
     conditions of `QuietTx2` -/
 def QuietMsg1 (s : App) (sg : Signer) (m : Msg) : Prop :=
-  (∀ s', handle genLimitFacts s sg m = .ok s' → s' = s) ∨
+  ((∀ s', handle genLimitFacts s sg m = .ok s' → s' = s) ∧ (∀ op, m ≠ .remove (some op)) ∧
+    (sg = .admin → ∀ op p u, m ≠ .setPower (some op) p u)) ∨
   (∃ op p u, sg = .admin ∧ m = .setPower (some op) p u ∧
     (handleOk s sg m = true → s.pendingFind op = none →
       (∀ v, s.getVal op = some v → powerOf v.tokens > 0 ∧ v.jailed = false) ∧ op ∉ s.updated ∧ (p / PR, op) ∉ s.index)) ∨
@@ -24,7 +25,7 @@ def QuietMsg1 (s : App) (sg : Signer) (m : Msg) : Prop :=
 /-- a successful message of the class keeps `M2` -/
 theorem handle_M2 (s s' : App) (c : CSet) (sg : Signer) (msg : Msg) (m : M2 s c) (q : QuietMsg1 s sg msg)
     (h : handle genLimitFacts s sg msg = .ok s') : M2 s' c := by
-  rcases q with hsame | ⟨op, p, u, hsg, hmsg, hq⟩ | ⟨op, hmsg, hq⟩ | ⟨a, hmsg⟩ | ⟨tg, hmsg⟩ | ⟨pa, hmsg⟩
+  rcases q with ⟨hsame, _, _⟩ | ⟨op, p, u, hsg, hmsg, hq⟩ | ⟨op, hmsg, hq⟩ | ⟨a, hmsg⟩ | ⟨tg, hmsg⟩ | ⟨pa, hmsg⟩
   · rw [hsame s' h]; exact m
   · have hok : handleOk s sg msg = true := by unfold handleOk; rw [h]
     subst hmsg; subst hsg
@@ -301,7 +302,9 @@ theorem quietMsg1_of_B (s : App) (sg : Signer) (m : Msg) (h : quietMsg1B s sg m 
     right; right; right; right; left; exact ⟨tg, rfl⟩
   · rename_i pa
     right; right; right; right; right; exact ⟨pa, rfl⟩
-  · left
+  · rename_i hrm _ _ _ hsp
+    left
+    refine ⟨?_, fun op hm => hrm op hm, fun hs op p u hm => hsp op p u hs hm⟩
     intro s' hs'
     rw [hs'] at h
     simpa using h
